@@ -229,6 +229,10 @@ class AstToSqlVisitor(visitor.NodeVisitor):
         ":meta private:"
         return "NOT"
 
+    def visit_USub(self, node: ast.USub) -> str:
+        ":meta private:"
+        return "-"
+
     def visit_UnaryOp(self, node: ast.UnaryOp) -> str:
         ":meta private:"
         op = self.visit(node.op)
@@ -236,6 +240,10 @@ class AstToSqlVisitor(visitor.NodeVisitor):
 
         # In case of a subexpression, wrap it in parentheses
         if isinstance(node.operand, ast.BoolOp):
+            operand = f"({operand})"
+        elif isinstance(node.op, ast.USub) and isinstance(
+            node.operand, (ast.BinOp, ast.Compare)
+        ):
             operand = f"({operand})"
 
         return f"{op} {operand}"
